@@ -69,6 +69,20 @@ def _min_fence_length(code_content: str, fence_char: str = "`") -> int:
     return max(3, max_len + 1)
 
 
+def _link_text_as_written(element: inline.AutoLink | gfm_elements.Url) -> str:
+    """
+    The text of an autolink exactly as it stands in the source. Marko's `dest` is the
+    resolved target (`www.x.org` becomes `http://www.x.org`, `<a@b.org>` becomes
+    `mailto:a@b.org`), which is right for HTML output but would rewrite the source here.
+    """
+    children = element.children
+    if isinstance(children, list) and all(
+        isinstance(child, inline.RawText) and isinstance(child.children, str) for child in children
+    ):
+        return "".join(cast(str, child.children) for child in children)
+    return element.dest
+
+
 # XXX Turn off Marko's parsing of block HTML.
 # Block parsing with comments or block elements has some counterintuitive issues:
 # https://github.com/frostming/marko/issues/202
@@ -617,7 +631,7 @@ class MarkdownNormalizer(Renderer):
         return f"[{link_text}]({element.dest}{title})"
 
     def render_auto_link(self, element: inline.AutoLink) -> str:
-        return f"<{element.dest}>"
+        return f"<{_link_text_as_written(element)}>"
 
     def render_image(self, element: inline.Image) -> str:
         template = "![{}]({}{})"
@@ -772,8 +786,8 @@ class MarkdownNormalizer(Renderer):
             self._in_table_cell = False
 
     def render_url(self, element: gfm_elements.Url) -> str:
-        """For GFM autolink URLs, just output the URL directly."""
-        return element.dest
+        """For GFM autolink URLs, just output the URL directly, as it was written."""
+        return _link_text_as_written(element)
 
     def render_alert(
         self,
